@@ -87,9 +87,14 @@ func (s *Session) ExecCtx(ctx *sql.Context, q string) (res Result) {
 	if err != nil {
 		return Result{Kind: "err", Msg: err.Error()}
 	}
+	return FromRows(sch, rows)
+}
+
+// FromRows normalises a drained result.
+func FromRows(sch sql.Schema, rows []sql.Row) Result {
 	if len(sch) == 1 && sch[0].Name == types.OkResultColumnName && len(rows) == 1 {
 		if ok, isOk := rows[0][0].(types.OkResult); isOk {
-			return Result{Kind: "ok", Affected: int(ok.RowsAffected), InsertID: int(ok.InsertID), Schema: sch}
+			return Result{Kind: "ok", Affected: int(ok.RowsAffected), InsertID: int(ok.InsertID), Schema: sch, Rows: [][]sqlast.Value{}}
 		}
 	}
 	out := make([][]sqlast.Value, len(rows))
